@@ -37,7 +37,7 @@ KINDS_OF = {"C01": ["value", "command", "demand"], "C02": ["map"], "C14": ["supp
             "C03": ["value", "map", "supply", "demand"], None: ["value", "command", "supply", "demand", "map"]}
 LANES_OF = {"value": ["v"], "command": ["c"], "supply": ["s"], "demand": ["d"], "map": ["om", "sm", "m"]}
 UNORDERED = {"m"}          # HashMap backing: the order of a sync snapshot is not predicted by M
-INPUTS = {"k", "via", "v", "id", "key", "to", "n"}
+INPUTS = {"k", "via", "v", "id", "key", "to", "n", "what"}
 
 # ----------------------------------------------------------------------------- pools
 VAL_POOL = [1, -1, 7, 42, 2147483647, -2147483648, 100000, -99999, 10, 333]
@@ -45,6 +45,11 @@ KEY_POOL_INT = [-2147483648, -7, -1, 0, 3, 10, 200, 2147483647]
 KEY_POOL_TEXT = ["", "10", "9", "B", "a", "a b", "\u00e9"]
 ID_POOL = ["1", "2", "0", "18446744073709551616", "340282366920938463463374607431768211455", "85883", "4294967296"]
 assert KEY_POOL_TEXT == sorted(KEY_POOL_TEXT, key=lambda s: s.encode()) and KEY_POOL_INT == sorted(KEY_POOL_INT)
+# bodies that are not a Recon value of the lane's type (i32 values, i32 or text keys)
+# (checked against the real decoders while the check was written; "1 2" is NOT in the pool: the real command decoder
+# reads it as 1 - a question about Recon decoding, not about lanes)
+BAD_VALUES = ["{", "abc", "", "@x", "{1,2}", "2147483648", "1.5"]
+BAD_KEYS = {"int": ["{", "abc", "", "@k{1}"], "text": ["{", "@k{1}", "{a,b}", ""]}
 UNKNOWN = 99              # abstract number of a concrete value / key outside the binding of the case
 
 
@@ -78,6 +83,8 @@ class Binding:
         self.aid = {c: a for a, c in self.ids.items()}
 
     def concretise(self, a):
+        if a["k"] == "badcmd":
+            return self.bad_command(a)
         c = {"k": a["k"]}
         if "via" in a:
             c["via"] = a["via"]
@@ -92,6 +99,19 @@ class Binding:
         if "n" in a:
             c["n"] = a["n"]
         return c
+
+    def bad_command(self, a):
+        """an undecodable command; the choice of the body is a function of the case's binding (deterministic)"""
+        h = sum(abs(v) for v in self.vals.values()) + len(self.keys)
+        if self.lane in ("v", "c"):
+            return {"k": "badcmd", "body": BAD_VALUES[h % len(BAD_VALUES)]}
+        bk = BAD_KEYS["text" if self.lane == "sm" else "int"]
+        good_key = recon_text(self.keys[1])
+        if a["what"] == "key":
+            return {"k": "badcmd", "kt": bk[h % len(bk)], "vt": "1"}
+        if a["what"] == "remkey":
+            return {"k": "badcmd", "kt": bk[h % len(bk)], "vt": None}
+        return {"k": "badcmd", "kt": good_key, "vt": BAD_VALUES[h % len(BAD_VALUES)]}
 
     def av(self, c):
         return self.aval.get(c, UNKNOWN)
@@ -125,6 +145,11 @@ class Binding:
         return self.av(c)
 
 
+def recon_text(key):
+    """the Recon text of a key of the pools (integers print as they are, text keys quoted)"""
+    return str(key) if isinstance(key, int) else json.dumps(key, ensure_ascii=False)
+
+
 def expected_obs(kind, a):
     """what M says the call returns (everything in lastAct that is not an input)"""
     e = {k: v for k, v in a.items() if k not in INPUTS and k != "out"}
@@ -143,6 +168,11 @@ def abstract_obs(b, kind, a, o):
         return {"bad": "no observation"}
     if "panic" in o:
         return {"bad": "panic in the code under test: %s" % o["panic"]}
+    if a["k"] == "badcmd":
+        e = {"fail": "fail" in o}
+        if "cur" in o:
+            e["cur"] = b.cur(kind, o["cur"])
+        return e
     if "fail" in o:
         return {"bad": "the lane's handler failed: %s" % o["fail"]}
     e = {}
@@ -161,12 +191,6 @@ def abstract_obs(b, kind, a, o):
         if e["cur"] is None:
             e["bad"] = "the lane holds a key outside the case: %s" % json.dumps(o["cur"])[:200]
     return e
-
-
-def same(e, x, unordered):
-    if e == x:
-        return True
-    return False
 
 
 def diverges(case, result):
@@ -198,8 +222,15 @@ def to_trace(case, result):
             ev.append({"k": "bad", "what": "no observation for call %d" % i})
             break
         o, k = obs[i], a["k"]
-        if "panic" in o or "fail" in o:
-            ev.append({"k": "bad", "what": ("call %d: " % i) + str(o.get("panic", o.get("fail")))[:300]})
+        if k == "badcmd" and "fail" in o:
+            e = {"k": "nop"}          # rejected before it reached the lane: the lane must hold what it held
+            c = b.cur(kind, o["cur"]) if "cur" in o else None
+            if c is not None:
+                e["cur"] = c
+            ev.append(e)
+            continue
+        if "panic" in o or "fail" in o or k == "badcmd":
+            ev.append({"k": "bad", "what": ("call %d: " % i) + str(o.get("panic", o.get("fail", "an undecodable command was accepted")))[:300]})
             break
         if o.get("other"):
             ev.append({"k": "bad", "what": "call %d reported another item as modified" % i})
@@ -307,22 +338,23 @@ def plan(tier, kinds):
         "demand": [consts("demand", remotes=("r1", "r2"), ghost=True, lag=3, vias=one)],
         "map": [consts("map", nk=1, remotes=("r1", "r2"), ghost=True, lag=3, vias=one),
                 consts("map", nk=2, remotes=("r1",), ghost=True, lag=2, vias=one)] +
-               ([] if q else [consts("map", nk=2, remotes=("r1", "r2"), ghost=True, lag=3, vias=one),
+               ([] if q else [consts("map", nk=2, remotes=("r1", "r2"), ghost=True, lag=2, vias=one),
+                              consts("map", nk=2, remotes=("r1",), ghost=True, lag=3, vias=one),
                               consts("map", nk=3, nv=1, remotes=("r1",), ghost=True, lag=3, vias=one)]),
     }
     neg = {"map": [consts("map", nk=1, remotes=("r1",), ghost=True, lag=2, vias=one, f12=False)]}
     sims = {
-        "value": [(consts("value", nv=3, remotes=("r1", "r2", "r3"), msq=4, ghost=True), 40 if q else 300, 40)],
-        "supply": [(consts("supply", nv=3, remotes=("r1", "r2"), msq=3, mf=6, ghost=True), 30 if q else 200, 40)],
-        "demand": [(consts("demand", nv=3, remotes=("r1", "r2", "r3"), msq=3, ghost=True), 30 if q else 200, 40)],
-        "map": [(consts("map", nk=3, nv=2, remotes=("r1", "r2"), ghost=True), 120 if q else 800, 50),
-                (consts("map", nk=2, nv=3, remotes=("r1", "r2", "r3"), mms=2, ghost=True), 60 if q else 400, 60)],
+        "value": [(consts("value", nv=3, remotes=("r1", "r2", "r3"), msq=4, ghost=True), 80 if q else 400, 40)],
+        "supply": [(consts("supply", nv=3, remotes=("r1", "r2"), msq=3, mf=6, ghost=True), 60 if q else 300, 40)],
+        "demand": [(consts("demand", nv=3, remotes=("r1", "r2", "r3"), msq=3, ghost=True), 60 if q else 300, 40)],
+        "map": [(consts("map", nk=3, nv=2, remotes=("r1", "r2"), ghost=True), 200 if q else 1200, 50),
+                (consts("map", nk=2, nv=3, remotes=("r1", "r2", "r3"), mms=2, ghost=True), 100 if q else 600, 60)],
     }
     sel = lambda d: {k: v for k, v in d.items() if k in kinds}
     return dict(graphs=sel(graphs), b3=sel(b3), neg=sel(neg), sims=sel(sims),
-                walks=(150, 30) if q else (2500, 60), extend=3 if q else 6,
+                walks=(400, 40) if q else (3000, 60), extend=3 if q else 6,
                 cover_limit={"map": 2500 if q else None},
-                deep={"value": 6 if q else 8, "command": 6 if q else 8, "supply": 6 if q else 8, "demand": 6 if q else 7, "map": 5 if q else 7},
+                deep={"value": 7 if q else 8, "command": 7 if q else 9, "supply": 7 if q else 9, "demand": 7 if q else 8, "map": 6 if q else 7},
                 p_sample=10 if q else 5, p_cap=400 if q else 4000)
 
 
@@ -426,7 +458,6 @@ class Verdicts:
         self.out, self.prop, self.enabled = out, prop, enabled
         self.stats = dict(replayed_calls=0, conform=0, drift=0, order_free=0, rejected=0, unjudged=0, p_traces=0, p_events=0,
                           p_runs=0, known=0)
-        self.interesting_left = None
 
     def judge(self, what, cases, results, wd, tag, p_sample, p_cap):
         st, out = self.stats, self.out
